@@ -7,14 +7,6 @@ impl vstd::std_specs::cmp::PartialEqSpecImpl for Edge {
     open spec fn eq_spec(&self, other: &Edge) -> bool { *self == *other }
 }
 
-impl<N> Dag<N, Edge, FnIdInner> {
-    /// `Dag::edge_count()`
-    #[verifier::external_body]
-    pub fn edge_count(&self) -> (r: usize)
-        ensures r == self.edges().len(),
-    { unimplemented!() }
-}
-
 /// the oracle of C12's last sentence: two graphs compare equal iff they have the same number of functions, the same
 /// edge list (source, target and kind, position by position) and pairwise equal functions in insertion order
 pub open spec fn graphs_equal<F: PartialEq>(a: &FnGraph<F>, b: &FnGraph<F>) -> bool {
